@@ -299,7 +299,7 @@ def configs(quick):
     # two handshakes at once on the thread-pool server: every line of Daemon._handshake is a scheduling point
     for pipeline in ([["invoke"]] if quick else [["invoke"], ["oneway", "invoke", "ping"], []]):
         for together in (True, False):
-            out.append({"server": "thread", "first": "connect-bad-secret", "validator": "by-data", "pipeline": pipeline, "together": together, "p": 1 if quick else 2, "r": 1 if quick else 2,
+            out.append({"server": "thread", "first": "connect-bad-secret", "validator": "by-data", "pipeline": pipeline, "together": together, "p": 1, "r": 1 if quick else 3,
                         "horizon": 4000, "watch_handshake": True})
     return out
 
